@@ -146,7 +146,7 @@ func c17Order(e *vh.Env, c c17Case, be *vh.Backend, o *vh.Out) {
 	}
 	defer sys.Close()
 	// requests: API keys {none, wrong (other length), wrong (same length), prefix, variant keys} x body sizes {0, 10, 11, 500, 2000}
-	keys := []string{"", "nope", "key-onX", "key-on", "key-one", "other-key-2", "other-key-X"}
+	keys := []string{"", "nope", "key-onX", "key-on", "key-one", "other-key-2", "other-key-X", "key-one1", "other-key-2-and-more", "KEY-ONE"}
 	for _, key := range keys {
 		for _, blen := range []int{0, 10, 11, 1000, 1001} {
 			// where does the first rejection happen?
@@ -361,7 +361,7 @@ func init() {
 				defer be.Close()
 				c17Order(e, c, be, o)
 				if len(c.Chain) == 3 && c.Chain[0].Name == "size_limit" && c.Chain[1].Name == "logging" && c.Chain[2].Name == "custom-auth" {
-					o.Sample(map[string]any{"part": "chains", "case": c, "probes": "a tracing probe sits in every gap: p0 size_limit p1 logging p2 custom-auth p3", "requests": "7 API-key variants x 5 body sizes"})
+					o.Sample(map[string]any{"part": "chains", "case": c, "probes": "a tracing probe sits in every gap: p0 size_limit p1 logging p2 custom-auth p3", "requests": "10 API-key variants (none, wrong, prefix of the key, key plus a suffix, other case, the key) x 5 body sizes"})
 				}
 				return
 			}
